@@ -22,6 +22,8 @@ Step kinds (all public API, except "norm" = Expression._normalize, which the tes
     norm    o                Expression._normalize()                        -> Expression
     eq      a b              a == b                                         -> bool
     peq     p twin           Point p ==/hash-equal to the same point spelled in sorted order -> str
+    tat     op kids p|num    temporary expression over pooled nodes, .at(...), dropped             -> number
+    tpat    e v p            temporary Partial(e, v).at(point), dropped                            -> number
     hash    o                hash(o) == hash(fresh equal copy)              -> bool
     repr    o                repr(o)                                        -> str
 """
@@ -132,13 +134,16 @@ def outcome_str(o):
 
 
 def _num_equal(a, b):
-    if isinstance(a, (int, float)) and isinstance(b, (int, float)):
-        if a == b:
-            return True
-        if isinstance(a, float) and isinstance(b, float) and math.isnan(a) and math.isnan(b):
-            return True
-        return False
-    return a == b
+    """Bit-for-bit on the float value (so 0.0 and -0.0, or results one ulp apart, differ; int 0 and
+    float 0.0 do not).  Both sides execute the same floating-point operations in the same order, so a
+    correct library gives identical bits whatever happened before."""
+    try:
+        fa, fb = float(a), float(b)
+    except (TypeError, ValueError, OverflowError):
+        return a == b
+    if math.isnan(fa) and math.isnan(fb):
+        return True
+    return fa.hex() == fb.hex()
 
 
 def compare_outcomes(live, ref):
@@ -364,6 +369,10 @@ def _operands(step):
         return [step["a"], step["b"]]
     if k == "peq":
         return []
+    if k == "tat":
+        return list(step["kids"])
+    if k == "tpat":
+        return [step["e"]]
     raise HarnessError(f"unknown step kind {k}")
 
 
@@ -432,6 +441,14 @@ def _call(step, k, ops, pt):
             return ("str", _strip_point(repr(ops[0]))), None
         if k == "hash":
             return ("num", hash(ops[0])), None
+        if k == "tat":
+            # a TEMPORARY root built over pooled nodes, evaluated and dropped at once (the usual way such
+            # a library is used inside loops and helpers): object life-times and address reuse are history too
+            return ("num", build_expr(step, ops).at(step["num"] if "num" in step else pt)), None
+        if k == "tpat":
+            tmp = lib.Partial(ops[0], variable_arg(step["v"], step.get("vobj", False), step.get("vfresh", False)),
+                              compute_early=step.get("early", False))
+            return ("num", tmp.at(pt)), None
         if k == "peq":
             # the pooled Point (spelled as the caller wrote it) against a twin spelled in sorted order
             twin = S.make_point(step["twin"])
@@ -533,7 +550,7 @@ class Run:
         w = self.world
         k = step["k"]
         size_cap = self.scn.get("size_cap", SIZE_CAP)
-        if k == "build":
+        if k in ("build", "tat"):
             return 1 + sum(w.esize[n] for n in ops) > size_cap
         heavy = k in ("asx", "norm") or (k == "mk" and step.get("early") and step["cls"] != "LocatedDifferential")
         if heavy and max(w.esize[n] for n in ops) > self.scn.get("heavy_cap", HEAVY_CAP):
@@ -763,7 +780,7 @@ class Run:
             if not (pt == fresh and fresh == pt) or hash(pt) != hash(fresh) or repr(pt) != repr(fresh):
                 return self._viol("C10", "point-changed", step, f"point {i}: {pt!r} vs fresh {fresh!r}")
             coords = getattr(pt, "_coordinates", None)
-            if coords is not None and list(coords.items()) != [tuple(c) for c in self.scn["points"][i]]:
+            if coords is not None and list(coords.items()) != [(c[0], S.coord_value(c[1])) for c in self.scn["points"][i]]:
                 return self._viol("C10", "point-changed", step, f"point {i} coordinates changed")
         return None
 
